@@ -180,7 +180,7 @@ def rewrite_after_edit(ctx, cases):
     from pose_format import Pose
     from pose_format.pose_header import PoseHeaderCache
     import copy as _copy
-    for case in cases:
+    for idx, case in enumerate(cases):
         try:
             pose = pc.build_pose(case)
             pose.write(io.BytesIO())
@@ -200,6 +200,20 @@ def rewrite_after_edit(ctx, cases):
                 ec["limbs"][0] = [ec["limbs"][0][1], ec["limbs"][0][0]]; comp.limbs[0] = (ec["limbs"][0][0], ec["limbs"][0][1])
             if ec["colors"]:
                 ec["colors"][0] = [(ec["colors"][0][0] + 1) % 65536, ec["colors"][0][1], ec["colors"][0][2]]; comp.colors[0] = tuple(ec["colors"][0])
+        if idx % 3 == 0 and all(pc.unhx(c["format"]) in ("XYC", "XYZC") for c in eh["components"]):
+            # … or the edit changes the number of coordinate dimensions under an unchanged body: the pose is no longer representable and the writer has to say so
+            for comp in pose.header.components:
+                comp.format = "XYZC" if comp.format == "XYC" else "XYC"
+            ctx.evaluated(("rewrite-dims", json.dumps(edited["header"]))); ctx.count("write → change the point format in place → write again")
+            buf = io.BytesIO()
+            try:
+                pose.write(buf)
+            except Exception:
+                continue
+            if case["body"]["frames"] * case["body"]["people"] * case["body"]["points"] > 0:
+                ctx.violation("unrepresentable pose was written without an error", edited if pc.case_size(edited) < 3000 else {"note": "large case"},
+                              {"after": "the point formats of a pose that had been written before were changed in place (header dimensions ≠ body dimensions)", "hex": buf.getvalue().hex()[:400]}, True, size=pc.case_size(edited))
+            continue
         ctx.evaluated(("rewrite", json.dumps(edited["header"]))); ctx.count("write → edit in place → write again")
         if not pc.representable(edited):
             continue
